@@ -109,6 +109,95 @@ def check_send(rep, http, f):
                'next.run in Client::send no longer receives the original request: %s' % [repr(o) for o in req_src])
 
 
+def _reach_for_len(f, chain_field, n):
+    """blocks reachable from the entry when the middleware slice has length n: a switch on a comparison of the slice's length (PtrMetadata /
+    Len of the chain field) with a constant follows only the edge that comparison selects"""
+    def len_local(l, depth=0):
+        for d in f.defs(l):
+            if d[0] != 'stmt':
+                return False
+            rv = d[3]['rv']
+            if rv['k'] == 'use' and 'l' in rv['a'] and not rv['a'].get('p') and depth < 4:
+                if not len_local(rv['a']['l'], depth + 1):
+                    return False
+            elif rv['k'] in ('unop', 'len', 'other', 'rawptr', 'ref') or 'PtrMetadata' in str(rv.get('op') or rv.get('s') or ''):
+                a_ = rv.get('a') or {}
+                if 'l' in a_ and (chain_field in (a_.get('p') or [])):
+                    continue
+                if 'l' in a_ and not a_.get('p') and depth < 4 and len_local(a_['l'], depth + 1):
+                    continue
+                return False
+            else:
+                return False
+        return bool(f.defs(l))
+    OPS = {'Eq': lambda a, b: a == b, 'Ne': lambda a, b: a != b, 'Lt': lambda a, b: a < b, 'Le': lambda a, b: a <= b, 'Gt': lambda a, b: a > b, 'Ge': lambda a, b: a >= b}
+    seen, work = set(), [0]
+    while work:
+        b = work.pop()
+        if b in seen:
+            continue
+        seen.add(b)
+        t = f.blocks[b]['t']
+        succs = f.succ(b)
+        if t['k'] == 'switch' and 'l' in t['a'] and not t['a'].get('p'):
+            for d in f.defs(t['a']['l']):
+                if d[0] == 'stmt' and d[3]['rv']['k'] == 'binop' and d[3]['rv'].get('op') in OPS:
+                    rv = d[3]['rv']
+                    x, y = rv['a'], rv['b']
+
+                    def const_of(op):
+                        if op.get('o') == 'const':
+                            return op.get('v')
+                        ds = f.defs(op['l']) if 'l' in op and not op.get('p') else []
+                        if len(ds) == 1 and ds[0][0] == 'stmt' and ds[0][3]['rv']['k'] == 'use' and ds[0][3]['rv']['a'].get('o') == 'const':
+                            return ds[0][3]['rv']['a'].get('v')
+                        return None
+                    val = None
+                    if 'l' in x and const_of(y) is not None and len_local(x['l']):
+                        val = OPS[rv['op']](n, const_of(y))
+                    elif 'l' in y and const_of(x) is not None and len_local(y['l']):
+                        val = OPS[rv['op']](const_of(x), n)
+                    if val is not None:
+                        tgt = next((b2 for v, b2 in t['arms'] if v == (1 if val else 0)), t['otherwise'])
+                        succs = [tgt]
+        work += succs
+    return seen
+
+
+def check_next_slice_pattern(rep, f, handle, endpoint):
+    from rules.props import c01 as _c01
+    hb, ht = handle
+    eb, et = endpoint
+    # the head: the middleware whose handle is called is element 0 of the chain field
+    src = origins(f, ht['args'][0], extra_identity=[('core::ops::deref::Deref::deref', 0)])
+    fields = set(tok for o in src for tok in (o.suffix or []) if tok.startswith('.'))
+    head_ok = bool(src) and all('[c0]' in (o.suffix or []) and o.kind == 'arg' and o.n == 1 for o in src) and len(fields) == 1
+    if not head_ok:
+        return False
+    chain = fields.pop()
+    # the tail: the chain field is assigned `&chain[1..]` before handle is called, and handle gets self
+    tail_assign = False
+    for bb, idx, s_ in f.stmts('assign'):
+        d = s_['d']
+        if d['p'] and d['p'][-1] == chain and s_['rv']['k'] == 'use':
+            for o in origins(f, s_['rv']['a']):
+                toks = list(o.suffix or [])
+                if o.kind == 'rvalue' and o.stmt['rv']['k'] == 'ref':
+                    toks += list(o.stmt['rv']['a'].get('p') or [])
+                if chain in toks and '[1..-0]' in toks and f.dominates(bb, hb):
+                    tail_assign = True
+    self_passed = any(o.kind == 'arg' and o.n == 1 for o in origins(f, ht['args'][3]))
+    # finite-domain evaluation over the length of the chain
+    r0, r1, r2 = (_reach_for_len(f, chain, n) for n in (0, 1, 2))
+    rep.expect('R16.b', hb not in r0 and hb in r1 and hb in r2, 'handle-on-some', 'Middleware::handle is called only when the chain is not empty',
+               'Middleware::handle in Next::run is reachable with an empty chain (or not with a non-empty one)')
+    rep.expect('R16.b', eb in r0 and eb not in r1 and eb not in r2, 'endpoint-on-none', 'the endpoint is called only when the chain is empty',
+               'the endpoint in Next::run is reachable while middleware remain')
+    rep.expect('R16.b', tail_assign and self_passed, 'peel-one', 'chain := chain[1..] before handle(chain[0], .., self)',
+               'Next::run does not hand the tail of the chain to the head middleware (tail assigned: %s, self passed: %s)' % (tail_assign, self_passed))
+    return True
+
+
 def check_next(rep, http):
     fs = http.find('crux_http::middleware::Next::run')
     fs = [f for f in fs if f.kind == 'AssocFn']
@@ -119,6 +208,10 @@ def check_next(rep, http):
     splits = list(f.calls('core::slice::<impl [T]>::split_first'))
     handles = list(f.calls('crux_http::middleware::Middleware::handle'))
     endpoint = [(bb, t) for bb, t in f.calls() if t.get('callee') is None or call_matches(t, ['core::ops::function::Fn::call'])]
+    if not splits and len(handles) == 1 and len(endpoint) == 1:
+        # the slice-pattern form: `match self.remaining { [] => endpoint, [current, rest @ ..] => { self.remaining = rest; current.handle(..) } }`
+        if check_next_slice_pattern(rep, f, handles[0], endpoint[0]):
+            return
     if len(splits) != 1 or len(handles) != 1 or len(endpoint) != 1:
         rep.bad('R16.b', 'shape', 'Next::run: expected one split_first, one Middleware::handle and one endpoint call; found %d/%d/%d'
                 % (len(splits), len(handles), len(endpoint)))
